@@ -6,7 +6,7 @@ from gencheck import *
 
 def run(tier):
     C = Check('C01', tier)
-    C.prove('Properties/C01.v')
+    C.prove('Properties/C01.v', bridges={'Properties/C01B.v': []})
     C.cov['tie']['protocol_code_generator + generated code'] = ('correspondence-only: real generator + generated serialize/deserialize round trips; the theorem\'s domain '
                                                                '(wire_ok, valid_obj) is decided inside Coq for every generated (spec, object) pair')
     quick = tier == 'quick'
@@ -44,10 +44,11 @@ def run(tier):
     except CoqCaseError as ex:
         C.broken.append(dict(kind='correspondence', stream='roundtrip', msg=str(ex)[-800:]))
         rs = []
-    tot = ind = 0
-    for (e, cm), (tree, cases), (n, bad, dis) in zip(metas, items, rs):
+    tot = ind = indA = 0
+    for (e, cm), (tree, cases), (n, bad, dis, nA) in zip(metas, items, rs):
         tot += len(cases)
         ind += max(n, 0)
+        indA += max(nA, 0)
         for i in bad[:2]:
             job, out = cm[i]
             d = (out.get('deser') or [{}])[0]
@@ -64,7 +65,7 @@ def run(tier):
                             dict(unit='generated serialize+deserialize', input=dict(tree=e['name'], xml=tree_xml(e['tree']), cls=job['cls'], value=job['value'])))
     C.stream('corr.roundtrip', tot, ind, sample=dict(tree=entries[0]['name'], cls=(metas[0][1][0][0]['cls'] if metas and metas[0][1] else None)))
     C.cov['traces_validated_against_impl'] += tot
-    C.cov['distribution'] = dict(objects=tot, inside_theorem_domain=ind, trees=len(items))
+    C.cov['distribution'] = dict(objects=tot, inside_theorem_domain=ind, inside_stage_A_domain=indA, trees=len(items))
     if rs and ind == 0:
         C.broken.append(dict(kind='correspondence', stream='roundtrip', msg='no generated (spec, object) pair fell inside the theorem\'s domain: vacuous run'))
     return C.finish()
